@@ -285,15 +285,6 @@ func effSeparator(a, b string) string {
 	return a
 }
 
-func effSuccessor(a string) string {
-	c := kv.OxiaSlashSpanComparer
-	s := c.Successor(nil, []byte(a))
-	if len(s) <= len(a) && c.Compare([]byte(a), s) < 0 {
-		return string(s)
-	}
-	return a
-}
-
 // sepOvershoots: the stored index separator of the block ending in a is not below the next block's first key b.
 func sepOvershoots(a, b string) bool { return cmpS(effSeparator(a, b), b) >= 0 }
 
@@ -1461,7 +1452,6 @@ func bigSpecs(U3 []string, thorough bool) []*dsSpec {
 
 type collector struct {
 	run    *ev.Run
-	cd     contractDiag
 	mu     sync.Mutex
 	perKey map[string]int
 	secs   map[string]float64
@@ -1594,7 +1584,7 @@ func realMain() {
 
 	// (2) engine
 	theDiag = cd
-	co := &collector{run: run, cd: cd, perKey: map[string]int{}, secs: map[string]float64{}}
+	co := &collector{run: run, perKey: map[string]int{}, secs: map[string]float64{}}
 	jobs := make(chan *dsSpec, 64)
 	results := make(chan *dsResult, 64)
 	nw := runtime.GOMAXPROCS(0)
